@@ -1,5 +1,6 @@
 import Pyrtma.Drv.Util
 import Pyrtma.Spec.Registry
+import Pyrtma.Model.ResRegex
 /-! Line-protocol driver for M7 (grammar: harness/parser_corr.py). -/
 namespace Pyrtma.Drv.Registry
 open Pyrtma.Registry Pyrtma.Drv
@@ -42,8 +43,44 @@ def parseImp (s : String) : Imp :=
 def pairOf (tok : String) : String × Option Int := let (n, v) := splitEq tok; (n, optInt v)
 def pairObs (tok : String) : String × Int := let (n, v) := splitEq tok; (n, intOf v)
 
+/-- `a:b` or `none` -/
+def parsePair (s : String) : Option (Nat × Nat) :=
+  match s.splitOn ":" with
+  | [a, b] => some (natOf a, natOf b)
+  | _ => none
+
+def showOptPair (o : Option (Nat × Nat)) : String :=
+  match o with | some (a, b) => s!"{a}:{b}" | none => "none"
+
+/-- one `_RESERVED_` entry alone: `re.search` of the real pattern and the real `handle_reserve` against
+`ResRegex.reRange` (the regular expression with backtracking), `rangeSearch` (the scan) and `handle (.reserved …)` -/
+def rxCase (id : String) (maxMsg : Int) (tok reObs implObs : String) : List String :=
+  let e := parseEntry tok
+  let cfg : Cfg := { coreOn := false, maxMsg := maxMsg }
+  let reLines := match e with
+    | .text s =>
+      let a := ResRegex.reRange s
+      let b := rangeSearch s
+      [if showOptPair a == reObs && showOptPair b == reObs then s!"{id} CORR ok"
+       else s!"{id} CORR diff regex reRange={showOptPair a} rangeSearch={showOptPair b} re.search={reObs}"]
+    | _ => []
+  let m := match handle cfg false (.reserved (some [e])) {} with
+    | .ok st => "ok:" ++ (if st.msgs.isEmpty then "-" else String.intercalate "," (st.msgs.map (fun p => s!"{p.1}={p.2}")))
+    | .error x => "err:" ++ x.cls
+  reLines ++ [if m == implObs then s!"{id} CORR ok" else s!"{id} CORR diff reserve model={m} impl={implObs}",
+              s!"{id} PROP C12 skip", s!"{id} INFO model={m}"]
+
+/-- the character classes of the pattern over every code point: `pts` = the code points the real `re` matches -/
+def clsCase (id kind : String) (pts : List Nat) : List String :=
+  let test : Char → Bool := if kind == "space" then isWs else isDigit
+  let bad := (List.range 0x110000).filter (fun n =>
+    if 0xd800 ≤ n && n ≤ 0xdfff then false else test (Char.ofNat n) != pts.contains n)
+  [if bad.isEmpty then s!"{id} CORR ok" else s!"{id} CORR diff class {kind} differs at code points {bad.take 20}",
+   s!"{id} PROP C12 skip"]
+
 structure Case where
   id : String := ""
+  special : List String := []
   cfg : Cfg := { coreOn := false, maxMsg := 10000 }
   root : Nat := 0
   core : Nat := 0
@@ -69,6 +106,7 @@ def flawTags (f : Flaws) : String :=
       (fun p => if p.2 then some p.1 else none))
 
 def finishCase (c : Case) : List String :=
+  if !c.special.isEmpty then c.special else
   let inp : Input := { cfg := c.cfg, files := c.files.toList, root := c.root, core := c.core }
   let m := parse inp
   let mtxt := match m with | .ok st => "ok " ++ showSt st | .error e => "err " ++ e.cls
@@ -94,6 +132,9 @@ def step (c : Case) (line : String) : Case × List String :=
   | "D" :: r => (updLast c (fun f => { f with modules := r.map pairOf }), [])
   | "T" :: r => (updLast c (fun f => { f with structs := r }), [])
   | "G" :: r => (updLast c (fun f => { f with msgs := r.map parseMsg }), [])
+  | ["RX", mx, tok, reObs, implObs] => ({ c with special := rxCase c.id (intOf mx) tok reObs implObs }, [])
+  | "CLS" :: kind :: pts => ({ c with special := clsCase c.id kind (pts.map natOf) }, [])
+  | ["CASE", id] => ({ id := id }, [])
   | ["OBS", "ok"] => ({ c with obsOk := true }, [])
   | ["OBS", "err", cls] => ({ c with obsOk := false, obsCls := cls }, [])
   | "TM" :: r => ({ c with obs := { c.obs with mdata := r } }, [])
